@@ -7,8 +7,8 @@ import sys
 
 ROOT = os.path.dirname(os.path.dirname(os.path.abspath(__file__)))
 sys.path.insert(0, os.path.join(ROOT, "lib"))
-from families import FAMILIES, FAMILY_OF, LEVEL_OF  # noqa: E402
-from manifest_data import CHECKS, NOT_APPLICABLE_REASON, ENGINES  # noqa: E402
+from families import FAMILIES, FAMILY_OF, LEVEL_OF, MANIFEST as CHECKS, ENGINES  # noqa: E402
+from manifest_data import NOT_APPLICABLE_REASON  # noqa: E402
 
 props = [json.loads(l)["id"] for l in open(os.path.join(ROOT, "properties.jsonl"))]
 hooks = subprocess.run(["git", "-C", "/repo", "log", "--format=%H %s"], stdout=subprocess.PIPE, text=True).stdout
@@ -26,9 +26,9 @@ for p in props:
         "evidence_file": "/verif/evidence/%s.json" % p,
         "replay_cmd_template": "./check %s --replay {path}" % p,
         "engine": FAMILY_OF[p],
-        "level_claimed": {"category": LEVEL_OF[p], "text": c["text"], "design_ref": c.get("design_ref", "DESIGN.md §6")},
-        "level_note": c["note"],
-        "technique": c["technique"],
+        "level_claimed": {"category": LEVEL_OF[p], "text": c.get("text", ""), "design_ref": c.get("design_ref", "DESIGN.md §6")},
+        "level_note": c.get("note", ""),
+        "technique": c.get("technique", "TLA+ spec model-checked with TLC + conformance binding (replay / trace validation)"),
     })
 na = [{"property_id": p, "reason": NOT_APPLICABLE_REASON.get(p, "check not built yet in this round; planned per DESIGN.md §7")}
       for p in props if p not in FAMILY_OF]
